@@ -168,3 +168,9 @@ TEXT["C16"] = dict(
     note="Two genuine defects repaired in /repo (mip chains of non-square images stopped before 1x1 so BLP0 output did not parse and JPEG levels were duplicated; the DXT parser counted blocks as ceil(w*h/16) and truncated levels whose sides are not multiples of 4). Lossy pixel content (JPEG, DXT, palette choice) is outside the statement and not compared.",
     technique="Lean 4 proof (induction on the halving chain with log2, list layout invariants, bit-packing round trip via chunking lemmas) + differential correspondence on layouts/packed alpha and round-trip oracles",
 )
+
+TEXT["C14"] = dict(
+    text="Machine-checked Lean 4 theorems about the derived data of an ADT root file as functions of the chunk layout: walking the written bytes yields exactly the chunks written with nothing left over (framing_tiles); every position computed for a chunk is the file offset of a chunk header with that name and payload length (pos_points_at_chunk), hence every MHDR offset, every MCIN entry and every MCNK header offset points at a chunk of the named type, for any list of chunks of any sizes. Tied to the code by recomputing MHDR, MCIN and the MCNK header fields from the layout of every file the serializer writes (first build and after re-serialisation) and comparing with the bytes, an independent framing walk, and content oracles for build->parse and three parse->rebuild rounds (same content, no growth).",
+    note="Four genuine defects repaired in /repo (vertex colours lost: has_mccv flag never set; MTXF/MTXP/blend-mesh parsers read through all following chunks, growing the tile every round; MCRF bytes read as MCRF+MCRD+MCRW and written three times; from_root_adt invented an MFBO chunk for TBC+ tiles). Content preservation itself is decided by the oracle (it needs the real parsers), not by a theorem: partial.",
+    technique="Lean 4 proof (induction over the chunk list: computed positions are chunk headers; reuse of the IFF framing lemmas) + layout-to-derived-data correspondence on every written file + round-trip content oracle",
+)
